@@ -210,6 +210,17 @@ func (b Base) serialize(in any) (s string, err error) {
 	}
 }
 
+// serializeBoundParam serializes one end of a range. An unbounded end (the wildcard *)
+// is not a value, so it is rendered inline and contributes no parameter.
+func (b Base) serializeBoundParam(in any) (s string, params []any, err error) {
+	if e, isExpr := in.(*expr.Expression); isExpr && e != nil && e.Op == expr.Wild {
+		if v, isStr := e.Left.(string); isStr && v == "*" {
+			return "'*'", params, nil
+		}
+	}
+	return b.serializeParams(in)
+}
+
 func (b Base) serializeParams(in any) (s string, params []any, err error) {
 	if in == nil {
 		return "", params, nil
@@ -230,11 +241,11 @@ func (b Base) serializeParams(in any) (s string, params []any, err error) {
 		}
 		return strings.Join(strs, ", "), params, nil
 	case *expr.RangeBoundary:
-		min, minParams, err := b.serializeParams(v.Min)
+		min, minParams, err := b.serializeBoundParam(v.Min)
 		if err != nil {
 			return "", params, err
 		}
-		max, maxParams, err := b.serializeParams(v.Max)
+		max, maxParams, err := b.serializeBoundParam(v.Max)
 		if err != nil {
 			return "", params, err
 		}
@@ -257,12 +268,6 @@ func (b Base) serializeParams(in any) (s string, params []any, err error) {
 		// which might change in the future.
 		return fmt.Sprintf(`"%s"`, string(v)), params, nil
 	case string:
-		// if we have a '*' then we don't want to insert a param
-		if v == "*" {
-			return "'*'", params, nil
-		}
-
-		// escape single quotes with double single quotes
 		return "?", []any{v}, nil
 	default:
 		return "?", []any{v}, nil
